@@ -141,6 +141,21 @@ fn main() {
             }
             out.join(" ")
         }
+        // alias HISTORY: an alias defined on top of another alias that is later removed and defined again must resolve the
+        // inner alias when it is CALLED (invoking through an alias = invoking directly, at the time of the invocation)
+        "AH" => {
+            let args = dec_list(f[2]);
+            if args.len() < 4 {
+                return "BADLINE".to_string();
+            }
+            let rest: String = (3..args.len()).map(|i| format!(" ${{v{}}}", i)).collect();
+            let direct = format!("alias base9 capture ${{v2}}\nbase9 ${{v1}}{}\n", rest);
+            let chain = format!(
+                "alias base9 capture ${{v0}}\nalias derived9 base9 ${{v1}}\nunalias base9\nalias base9 capture ${{v2}}\nderived9{}\n",
+                rest
+            );
+            format!("{} {}", run_one(&direct, f[1], &args), run_one(&chain, f[1], &args))
+        }
         "P" => {
             let args = dec_list(f[2]);
             let refs: Vec<String> = (0..args.len()).map(|i| format!(" ${{v{}}}", i)).collect();
